@@ -35,3 +35,15 @@ def implicit_map(x, u, t, dt, F):
 def cn_map(x, u, t, dt, F, alpha):
     """fixed-point map of the Crank-Nicolson step with explicit fraction alpha"""
     return alpha * x + (1 - alpha) * (u + dt / 2 * (F(x, t + dt) + F(u, t)))
+
+
+def euler_maruyama(u, t, dt, F, V, Vd, alpha, vol, xi, sqrt):
+    """explicit step of du = F dt + sqrt(V) dW with the drift of the chosen interpretation:
+    everything is evaluated at the pre-step state"""
+    return u + dt * F(u, t) + sqrt(V(u, t) * dt / vol) * xi + alpha * dt * Vd(u, t) / (2 * vol)
+
+
+def milstein(u, t, dt, F, V, Vd, alpha, vol, xi, sqrt):
+    dW = sqrt(dt) * xi
+    return (u + dt * F(u, t) + alpha * dt * Vd(u, t) / (2 * vol) + sqrt(V(u, t) / vol) * dW
+            + Vd(u, t) / (4 * vol) * (dW * dW - dt))
